@@ -818,7 +818,22 @@ def run_case(ctx, case):
     nsec = nseg = None
     if ef is not None:
         b = Battery(ef, stream, len(data))
-        nsec, nseg = b.run()
+        if case.get('mem'):
+            # allocation that never passes through the stream (e.g. the zero block of a no-bits section) is invisible to the read budget:
+            # these cases run the battery under tracemalloc and bound the peak of the traced memory
+            import tracemalloc
+            tracemalloc.start()
+            try:
+                nsec, nseg = b.run()
+                peak = tracemalloc.get_traced_memory()[1]
+            finally:
+                tracemalloc.stop()
+            ctx.count('battery.memory-measured')
+            if peak > MEM_A + MEM_B * max(len(data), SIZE_FLOOR):
+                ctx.fail('battery.memory-peak', 'the enumeration battery allocated up to %d bytes on a %d-byte input (bound %d + %d*max(len,%d))' % (
+                    peak, len(data), MEM_A, MEM_B, SIZE_FLOOR), case)
+        else:
+            nsec, nseg = b.run()
         ctx.count('battery.runs')
         bb = byte_budget(len(data))
         for step in Battery.STEPS:
@@ -1003,8 +1018,62 @@ def enum_record_pairs(tier):
                                                   ['set', fb['label'], fb['off'], fb['size'], vb]], 'rec2')
 
 
+MEM_A, MEM_B = 16 << 20, 64
+
+
+def enum_alloc(tier):
+    """a section header that claims a big no-bits (or string table / note / symbol table) section: its size must not become an allocation"""
+    for src in pair_seeds(tier):
+        sc = seed_scan(src)
+        if not sc.ok:
+            continue
+        by = {f['label']: f for f in sc.fields}
+        i = 0
+        while 'sh[%d].sh_type' % i in by:
+            ft, fs = by['sh[%d].sh_type' % i], by['sh[%d].sh_size' % i]
+            for typ in (8, None):
+                for size in (1 << 27, 0x0c000000):
+                    muts = [['set', fs['label'], fs['off'], fs['size'], size]] + ([['set', ft['label'], ft['off'], ft['size'], typ]] if typ is not None else [])
+                    c = make_case(src, muts, 'alloc')
+                    c['mem'] = True
+                    yield c
+                    if 'eh.e_shstrndx' in by and i:
+                        fe = by['eh.e_shstrndx']
+                        c = make_case(src, muts + [['set', fe['label'], fe['off'], fe['size'], i]], 'alloc')
+                        c['mem'] = True
+                        yield c
+            i += 1
+
+
+def enum_escape_triples(tier):
+    """The extended-numbering escapes move a count or index into section header 0, so three header fields decide together how far an
+    enumeration runs: the escape value itself, the field of section 0 that then holds the number, and the entry size / table offset that
+    decide where the entries are looked for.  Escape fixed, every pair of its companions x boundary values."""
+    escapes = (('eh.e_shnum', 0, ('sh[0].sh_size', 'eh.e_shentsize', 'eh.e_shoff')),
+               ('eh.e_phnum', 0xffff, ('sh[0].sh_info', 'eh.e_phentsize', 'eh.e_phoff')),
+               ('eh.e_shstrndx', 0xffff, ('sh[0].sh_link', 'eh.e_shentsize', 'eh.e_shnum')))
+    for src in pair_seeds(tier):
+        sc = seed_scan(src)
+        if not sc.ok:
+            continue
+        seed = seed_bytes(src)
+        by = {f['label']: f for f in sc.fields}
+        for esc, val, comps in escapes:
+            if esc not in by or any(c not in by for c in comps):
+                continue
+            fe = by[esc]
+            for a in range(len(comps)):
+                for b in range(a + 1, len(comps)):
+                    fa, fb = by[comps[a]], by[comps[b]]
+                    for va in pair_values(fa, _field_value(sc, seed, fa), len(seed), tier) + [1 << 48, fa['S'] + 8]:
+                        for vb in pair_values(fb, _field_value(sc, seed, fb), len(seed), tier) + [1 << 48, fb['S'] + 8]:
+                            yield make_case(src, [['set', fe['label'], fe['off'], fe['size'], val],
+                                                  ['set', fa['label'], fa['off'], fa['size'], va],
+                                                  ['set', fb['label'], fb['off'], fb['size'], vb]], 'escape3')
+
+
 ENUMS = (enum_truncations, enum_big_truncations, enum_byte_subst, enum_single_fields, enum_field_pairs,
-         enum_record_pairs)
+         enum_record_pairs, enum_escape_triples, enum_alloc)
 
 
 def bulk(ctx, tier, shard, nshards):
